@@ -504,3 +504,8 @@ package zygo
 //@ ghost captured := true @after call captureControlState[0]
 //@ ghost st := ret0 @after call captureControlState[0]
 //@ C05 ensures restored-on-error: captured && r1 != nil ==> ctlIs(env, st)
+
+// Compile errors propagate: in every function of the compiler that returns an
+// error, a non-nil error returned by a nested generator call must lead to a
+// non-nil error result ("errors are never swallowed into a successful result").
+//@ propagatesfile C05 generator.go Generate.*|generateSyntaxQuote.*|buildSexpFun|Apply|MakeHash|ParseFile
